@@ -4,6 +4,7 @@ import (
 	"fmt"
 	"go/ast"
 	"go/token"
+	"regexp"
 	"strings"
 
 	"golang.org/x/tools/go/packages"
@@ -29,9 +30,9 @@ type guardSpec struct {
 }
 
 var guardTable = []guardSpec{
-	{"multiparty.(Combiner).GenAdditiveShare", []string{"len(activesPoints)", "threshold"}, []token.Token{token.LSS}, []string{"C15"}, "fewer than t active parties must be refused"},
+	{"multiparty.(Combiner).GenAdditiveShare", []string{"len(activesPoints)", "threshold"}, []token.Token{token.LSS, token.GTR}, []string{"C15"}, "fewer than t active parties must be refused"},
 	{"multiparty.(Combiner).GenAdditiveShare", []string{"slices.Contains", "ownPoint"}, []token.Token{token.NOT}, []string{"C15"}, "the caller must be one of the t points that are combined: a party outside them would multiply its share by t foreign factors and be told all went well"},
-	{"multiparty.(Combiner).GenAdditiveShare", []string{"slices.Contains", "actives[i]"}, nil, []string{"C15"}, "a point listed twice is one party, not two: fewer than t distinct parties must be refused"},
+	{"multiparty.(Combiner).GenAdditiveShare", []string{`re:slices\.Contains\((\w+)\[:\w+\], (\w+)\[\w+\]\)`}, nil, []string{"C15"}, "a point listed twice is one party, not two: fewer than t distinct parties must be refused"},
 	{"ring.(SubRing).generateNTTConstants", []string{"Modulus", "NthRoot"}, []token.Token{token.NEQ}, []string{"C19", "C01"}, "a prime must be congruent to 1 modulo the root order (2N, 4N for the conjugate-invariant ring), not merely modulo 2N"},
 	{"core/rlwe.(Parameters).PiOverflowMargin", []string{"level", "0"}, []token.Token{token.LSS}, []string{"C04", "C19"}, "an evaluation key without P on parameters that have one is at P-level -1: the margin of an empty set of primes is the documented -1, not a panic"},
 	{"core/rlwe.CheckModuli", []string{"AllDistinct"}, nil, []string{"C19"}, "Q and P together are the RNS basis of QP: a prime present in both must be refused (each ring only checks its own chain)"},
@@ -101,6 +102,42 @@ func scanGuard(c *core.Ctx) []ob {
 		}
 		n++
 		found := false
+		// the guard may sit in the function itself or in a predicate it delegates its checks to (a function of the
+		// same package whose error/bool result it tests): those are searched too
+		bodies := []*ast.FuncDecl{fd}
+		{
+			pkgPrefix := g.fn[:strings.Index(g.fn, ".")+1]
+			ast.Inspect(fd.Body, func(nd ast.Node) bool {
+				call, ok := nd.(*ast.CallExpr)
+				if !ok {
+					return true
+				}
+				name := ""
+				switch f := unparen(call.Fun).(type) {
+				case *ast.Ident:
+					name = f.Name
+				case *ast.SelectorExpr:
+					name = f.Sel.Name
+				}
+				if name == "" {
+					return true
+				}
+				for k, d := range decls {
+					if !strings.HasPrefix(k, pkgPrefix) || d.Name.Name != name || d == fd || d.Type.Results == nil {
+						continue
+					}
+					rs := d.Type.Results.List
+					if t := exprString(rs[len(rs)-1].Type); t == "error" || t == "bool" {
+						bodies = append(bodies, d)
+					}
+				}
+				return true
+			})
+		}
+		for _, fd := range bodies {
+		if found {
+			break
+		}
 		ast.Inspect(fd.Body, func(nd ast.Node) bool {
 			is, ok := nd.(*ast.IfStmt)
 			if !ok || found {
@@ -151,9 +188,17 @@ func scanGuard(c *core.Ctx) []ob {
 			cond += " ; " + expandLocals(fd, is, is.Cond, 0)
 			for _, t := range g.tokens {
 				any := false
-				for _, alt := range strings.Split(t, "|") {
-					if strings.Contains(cond, alt) {
-						any = true
+				if strings.HasPrefix(t, "re:") {
+					if re, err := regexp.Compile(t[3:]); err == nil {
+						if m := re.FindStringSubmatch(cond); m != nil && (len(m) < 3 || m[1] == m[2]) {
+							any = true
+						}
+					}
+				} else {
+					for _, alt := range strings.Split(t, "|") {
+						if strings.Contains(cond, alt) {
+							any = true
+						}
 					}
 				}
 				if !any {
@@ -199,6 +244,7 @@ func scanGuard(c *core.Ctx) []ob {
 			found = true
 			return false
 		})
+		}
 		pos := c.Rel(fd.Pos())
 		if found {
 			out = append(out, withProps(okOb("GUARD", key, pos, g.why+": checked and reported as an error", true), g.props...))
@@ -251,6 +297,23 @@ func expandLocals(fd *ast.FuncDecl, at ast.Node, e ast.Expr, depth int) string {
 			}
 			return true
 		})
+		if len(defs) == 0 {
+			// the value variable of an enclosing range statement stands for the element
+			var elem string
+			ast.Inspect(fd.Body, func(y ast.Node) bool {
+				rs, ok := y.(*ast.RangeStmt)
+				if !ok || rs.Value == nil || rs.Key == nil || rs.Pos() > at.Pos() || rs.End() < at.End() {
+					return true
+				}
+				if v, ok := rs.Value.(*ast.Ident); ok && v.Name == x.Name {
+					elem = exprString(rs.X) + "[" + exprString(rs.Key) + "]"
+				}
+				return true
+			})
+			if elem != "" {
+				return elem
+			}
+		}
 		if len(defs) == 1 {
 			r := expandLocals(fd, at, defs[0], depth+1)
 			if _, bin := unparen(defs[0]).(*ast.BinaryExpr); bin && depth > 0 {
